@@ -307,6 +307,10 @@ def roundtrip(run):
         if draw(st.booleans()):
             o["psi_interpolation_method"] = "spline"
             o["orthogonal"] = draw(st.sampled_from([True, True, False]))
+            if not o["orthogonal"] and draw(st.booleans()):
+                # explicit (non-default) non-orthogonal settings must survive the round trip too
+                o["nonorthogonal_xpoint_poloidal_spacing_length"] = draw(st.sampled_from([0.03, 0.1]))
+                o["nonorthogonal_target_all_poloidal_spacing_length"] = draw(st.sampled_from([0.3, 0.6]))
         if draw(st.booleans()):
             o["psinorm_sol"] = 1.12
             o["psi_spacing_separatrix_multiplier"] = 0.6
